@@ -107,6 +107,11 @@ pub fn ite_i64(c: bool, a: i64, b: i64) -> i64 {
     }
 }
 
+/// Turns on schedule exploration under mirsym: threads spawned afterwards are interleaved at their
+/// synchronisation operations with at most `preemption_bound` preemptions (no effect natively).
+#[inline(never)]
+pub fn threads(_preemption_bound: u32) {}
+
 /// Between `unordered(true)` and `unordered(false)` the harness only uses the results of the calls it makes as
 /// sets, so mirsym need not explore the iteration orders of hash containers there (no effect natively).
 #[inline(never)]
